@@ -164,6 +164,7 @@ func checkC13(p *Prog, r *Report) {
 	r.rule("C13.same-values: on non-contradicting successful paths the two functions perform the same Set calls (same field name term, same value term) and no additional call reorders or rewrites a value (e.g. a sort) in only one of them")
 	r.rule("C13.presence: in the partial function AddAttr is called only with the schema type's own attribute found for the payload key, AddRel only with the schema type's own relationship and only on paths that answered 'relationship has data' with yes for that relationship; the new type gets its name from the schema type and nothing else from it")
 	r.rule("C13.fresh-linkage / C13.plumbing (shared with C01/C06): in both functions the variables a relationship's linkage is decoded into are declared inside the loop over the relationships, and the values handed to Set are the decoded ones")
+	r.rule("C13.impl.* (imported from C17): SoftResource.Set and Wrapper.setField store exactly the value they are given and Get returns it as stored, so the value a partial resource reports for a field is the one the full resource holds")
 	r.rule("R4a: the discarded errors of AddAttr/AddRel are justified by C13.presence (arguments are the schema's own definitions, map keys are unique)")
 	r.assume("both functions decode with encoding/json into the same skeleton type; decode calls with the same argument terms yield the same values")
 	r.notCovered("value equality with full unmarshaling beyond the shared decode calls (C06 decides the decoders)")
@@ -180,6 +181,10 @@ func checkC13(p *Prog, r *Report) {
 	// must carry the value full unmarshaling gives it, which presupposes that
 	// neither lets one relationship's linkage leak into the next
 	checkUnmarshalPlumbing(p, r, "C13")
+	// the partial function stores into a SoftResource, the full one into the
+	// type's own implementation: both must keep the value they are given as is
+	nImp := r.importRules(func(r2 *Report) { checkSoftGetSet(p, r2); checkWrapperGetSet(p, r2) }, "C13.impl", "C17.set-stores-given", "C17.get-returns-stored")
+	r.floor("imported Get/Set obligations", nImp, 4)
 	fp, pp := explorePaths(p, full), explorePaths(p, part)
 	r.floor("complete paths of UnmarshalResource", len(fp), 20)
 	r.floor("complete paths of UnmarshalPartialResource", len(pp), 20)
